@@ -24,14 +24,17 @@ VOrient(r) ==
 
 \* ---------------------------------------------------------------- C11
 Close(vs) == Append(vs, vs[1])
+\* query points: the whole n x n grid (model A cases), or the explicit list qs (seeded large-grid cases)
+NQ(r) == IF "qs" \in DOMAIN r.case THEN Len(r.case.qs) ELSE r.case.n * r.case.n
+QPt(r, k) == IF "qs" \in DOMAIN r.case THEN r.case.qs[k] ELSE GridPt(k, r.case.n)
 VLocate(r) ==
-  LET ring == Close(r.case.ring)  n == r.case.n
-      want(k) == Locate(GridPt(k, n), ring)
+  LET ring == Close(r.case.ring)
+      want(k) == Locate(QPt(r, k), ring)
       badloc == {k \in DOMAIN r.loc : \E v \in DOMAIN r.loc[k] : r.loc[k][v] # want(k)}
       badin  == {k \in DOMAIN r.inring : r.inring[k] # (want(k) # "exterior")}
-      badon  == {k \in DOMAIN r.online : r.online[k] # OnLine(GridPt(k, n), ring)}
-      badsg  == {k \in DOMAIN r.onseg1 : r.onseg1[k] # OnSeg(GridPt(k, n), ring[1], ring[2])} IN
-  IF Len(r.loc) # n * n THEN Bad("locate|short", 0)
+      badon  == {k \in DOMAIN r.online : r.online[k] # OnLine(QPt(r, k), ring)}
+      badsg  == {k \in DOMAIN r.onseg1 : r.onseg1[k] # OnSeg(QPt(r, k), ring[1], ring[2])} IN
+  IF Len(r.loc) # NQ(r) THEN Bad("locate|short", 0)
   ELSE IF badloc # {} THEN
          LET k == FirstOf(badloc)  v == FirstOf({v \in DOMAIN r.loc[k] : r.loc[k][v] # want(k)}) IN
          Bad("locate|ring|variant" \o IntS(v) \o "|got=" \o r.loc[k][v] \o "|want=" \o want(k), k)
